@@ -698,8 +698,8 @@ def c15(ctx):
     drv = ctx.build()
     models.run_family(ctx, "conc")
     n = 6 if ctx.quick else 40
-    outs = run_conc(ctx, drv, n, ctx.seed + 20, profile="stress", par=3, shards=6, watchdog="60s") + \
-        run_conc(ctx, drv, n // 2, ctx.seed + 21, profile="mixed", par=3, shards=2, watchdog="60s")
+    outs = run_conc(ctx, drv, n, ctx.seed + 20, profile="stress", par=3, shards=6, watchdog="120s") + \
+        run_conc(ctx, drv, n // 2, ctx.seed + 21, profile="mixed", par=3, shards=2, watchdog="120s")
     stats = judge_conc(ctx, outs, "c15", exact=True, report_watchdog=True)
     left = 0
     for out, summ, o, rc in outs:
